@@ -82,9 +82,9 @@ var checks = map[string]Check{
 					}
 				}
 			}
-			deep := []string{"proto=raw,body=json,k=2"}
+			deep := []string{"proto=raw,body=json,k=2", "proto=raw,body=json,k=2,pipe=g"}
 			if tier == "thorough" {
-				deep = []string{"proto=raw,body=json,k=2", "proto=raw,body=plainnamed,k=2", "proto=raw,body=form,k=2,pipe=g", "proto=raw,body=json,shape=S2,k=1", "proto=raw,body=json,shape=S3", "proto=raw,body=plain,op=callpush,k=2", "proto=raw,body=protobuf,op=async,k=2"}
+				deep = []string{"proto=raw,body=json,k=2", "proto=raw,body=json,k=2,pipe=g", "proto=raw,body=plainnamed,k=2", "proto=raw,body=form,k=2,pipe=g", "proto=raw,body=json,shape=S2,k=1", "proto=raw,body=json,shape=S3", "proto=raw,body=plain,op=callpush,k=2", "proto=raw,body=protobuf,op=async,k=2"}
 			}
 			for _, d := range deep {
 				j := sched("c01", d, 1, 16)
